@@ -82,6 +82,52 @@ pub fn case<G: CurveTag>(bytes: &[u8], col: &mut Collector, cfg: &GenCfg) -> Res
     Ok(())
 }
 
+/// a circuit with exactly `n` gates: two thirds in the first phase through all three
+/// allocation paths, the rest in a closure
+fn huge(curve: Curve, n: usize, col: &mut Collector) -> Result<(), Failure> {
+    use crate::program::{Op, Program, Sc, Var};
+    use crate::scalars::ScalarSpec;
+    let n2 = n / 3;
+    let n1 = n - n2;
+    let mut ops = vec![Op::Commit { v: ScalarSpec::Rand(n as u64), blind: ScalarSpec::Rand(1 + n as u64) }];
+    for i in 0..n1 {
+        match i % 3 {
+            0 => {
+                ops.push(Op::Alloc { val: Sc::C(ScalarSpec::Rand(i as u64)) });
+                ops.push(Op::Alloc { val: Sc::C(ScalarSpec::Small(i as u64)) });
+            }
+            1 => ops.push(Op::AllocMul { l: Sc::C(ScalarSpec::Rand(7 * i as u64)), r: Sc::C(ScalarSpec::NegSmall(i as u64)) }),
+            _ => ops.push(Op::Mul { left: vec![(Var::Com(0), Sc::C(ScalarSpec::One)), (Var::O(i - 1), Sc::C(ScalarSpec::Half))], right: vec![(Var::L(i - 2), Sc::C(ScalarSpec::Small(3)))] }),
+        }
+        if i % 5 == 0 {
+            ops.push(Op::Constrain { lc: vec![(Var::L(i), Sc::C(ScalarSpec::Rand(i as u64))), (Var::Com(0), Sc::C(ScalarSpec::MinusOne))], err: None, base: None });
+        }
+    }
+    let mut body = vec![Op::Challenge { label: 0 }];
+    for j in 0..n2 {
+        body.push(Op::AllocMul { l: Sc::MulReg(ScalarSpec::Small(1 + j as u64), 0), r: Sc::AddReg(ScalarSpec::Rand(j as u64), 0) });
+        if j % 4 == 0 {
+            body.push(Op::Constrain { lc: vec![(Var::O(n1 + j), Sc::MulReg(ScalarSpec::One, 0)), (Var::L(0), Sc::C(ScalarSpec::One))], err: None, base: None });
+        }
+    }
+    ops.push(Op::Closure(body));
+    let prog = Program { curve, tlabel: 0, pre: vec![], ops, owned: false, cap_p: Cap::Exact, cap_v: Cap::Exact, party_cap: 1, seed: n as u64 };
+    let p = with_curve!(curve, G => {
+        let p = run_prover::<G>(&prog, &ProveOpts::default());
+        if !p.model.satisfied() { return Ok(()); }
+        match p.proof.as_ref() {
+            None => Err(format!("prove failed: {:?} {:?}", p.err, p.panic)),
+            Some(pf) => {
+                let v = run_verifier::<G>(&prog, &p.commitments, pf, &VerifyOpts::default());
+                if v.accepted() { Ok(()) } else { Err(format!("verify = {}", v.verdict())) }
+            }
+        }
+    });
+    col.class("huge-circuit");
+    col.nontrivial(crate::runner::fp_of(&(curve, n)));
+    p.map_err(|e| Failure::new("C01:huge", format!("{} gates on {}: {}", n, curve.name(), e), json!({"gates": n, "curve": curve.name()})))
+}
+
 fn dispatch(sub: &str, bytes: &[u8], col: &mut Collector) -> Result<(), Failure> {
     let cname = sub.split('/').nth(1).unwrap_or("secq256k1");
     let curve = Curve::from_name(cname).unwrap_or(Curve::Secq);
@@ -90,6 +136,9 @@ fn dispatch(sub: &str, bytes: &[u8], col: &mut Collector) -> Result<(), Failure>
 }
 
 pub fn replay(sub: &str, bytes: &[u8], col: &mut Collector) -> Result<(), Failure> {
+    if sub == "c01/huge" && bytes.len() == 3 {
+        return huge(Curve::ALL[bytes[0] as usize % 3], (bytes[1] as usize) << 8 | bytes[2] as usize, col);
+    }
     dispatch(sub, bytes, col)
 }
 
@@ -112,6 +161,18 @@ pub fn run(tier: &str, seed: u64) -> i32 {
         let subl = format!("c01/{}/large", c.name());
         let nl = super::scale(tier, 48, 400);
         rep.outcome.merge(search(&subl, seed, nl, 900, &|b, col| dispatch(&subl, b, col)));
+    }
+    if tier == "thorough" && rep.outcome.found.is_empty() {
+        // sizes around large powers of two (one circuit each, all three allocation paths, both phases)
+        let mut items = vec![];
+        for c in Curve::ALL {
+            for n in [127usize, 128, 129, 255, 256, 257, 511, 512, 513, 1023, 1024] {
+                items.push((c, n));
+            }
+        }
+        let o = crate::runner::enumerate("c01/huge", &items, &|(c, n)| vec![c.index() as u8, (*n >> 8) as u8, *n as u8], &|(c, n), col| huge(*c, *n, col));
+        rep.outcome.merge(o);
+        rep.outcome.exhaustive = false;
     }
     for c in ["zero-gates", "both-phases", "phase2-only", "half-open-end1", "commit-after-constrain", "capP-at-threshold", "capV-at-threshold", "owned-transcript", "pow2+1-gates", "single-alloc"] {
         rep.required_classes.push((c.to_string(), 0.02));
